@@ -226,6 +226,40 @@ def gen_beyond(rng):
     return join([n, t, ts, unit], ops)
 
 
+def gen_hugeyear(rng):
+    """Parameterisations whose calendar year n*t is 2^64 ns or more (bucket widths of decades): the year length, and
+    for many timestamps the timestamp itself, no longer fit 64-bit nanoseconds while every single argument does."""
+    t = rng.choice([1 << 60, (1 << 61) + 12345, 3155760000000000000, 1 << 63, (1 << 62) + 1, 10**18])
+    n = rng.choice([k for k in (2, 3, 5, 8, 17, 32) if k * t >= (1 << 64)])
+    c = rng.choice([1, 1, 2, 4, 8])
+    unit = t // c
+    ts = rng.choice([0, 0, 0, 1, c, n * c - 1])
+    ref = Ref(ts)
+    ops = []; pay = 100
+    for _ in range(rng.randint(5, 45)):
+        r = rng.random()
+        if r < 0.5:
+            time = ref.tcur + rng.choice([0, 0, 1, 1, 2, 3, c, n * c, n * c + 1, rng.randint(0, 2 * n * c + 2)])
+            if rng.random() < 0.06 and ref.tcur > ts:
+                time = ref.tcur - 1          # contract violation
+            ops.append([1, time, pay]); ref.add(time, pay); pay += 1
+        elif r < 0.78:
+            ops.append([3]); ref.fetch()
+        elif r < 0.9:
+            k = rng.randint(0, len(ref.handles) + 1)
+            ops.append([2, k]); ref.cancel(k)
+        elif r < 0.94:
+            ops.append([6])
+        elif r < 0.97:
+            ops.append([7])
+        else:
+            ops.append([rng.choice([4, 5])])
+    for _ in range(len(ref.pending()) + 1):
+        ops.append([3]); ref.fetch()
+    ops.append([4])
+    return join([n, t, ts, unit], ops)
+
+
 def walk(script, out):
     """Align implementation output records with operations. Yields (op, record) or raises."""
     hdr, ops = split(script)
